@@ -852,3 +852,266 @@ func c17r4(rc *core.RC) {
 		rc.Unknown("encoder.decodeRuneInString/separator-returns", fd.Pos(), "expected returns of lineSepState and paragraphSepState, found %d", found)
 	}
 }
+
+// ---- C17.R5 hand-written surrogate arithmetic equals utf16.DecodeRune ----
+
+// Wherever the decoder combines a high and a low surrogate with its own arithmetic (an assignment
+// whose right-hand side mentions 0xd800 and 0xdc00 and two rune variables), the expression is folded
+// for every high surrogate against a spread of low surrogates and for every low surrogate against a
+// spread of high ones, and compared with 0x10000 + (hi-0xD800)<<10 + (lo-0xDC00).
+func c17r5(rc *core.RC) {
+	p := rc.P
+	n := 0
+	for _, fd := range p.Funcs("decoder") {
+		if fd.Body == nil {
+			continue
+		}
+		info := p.Info(fd)
+		fn := p.FuncName(fd)
+		k := 0
+		ast.Inspect(fd.Body, func(m ast.Node) bool {
+			as, ok := m.(*ast.AssignStmt)
+			if !ok || len(as.Lhs) != 1 || len(as.Rhs) != 1 || as.Tok != token.ASSIGN && as.Tok != token.DEFINE {
+				return true
+			}
+			hasHi, hasLo := false, false
+			vars := map[types.Object]bool{}
+			ast.Inspect(as.Rhs[0], func(x ast.Node) bool {
+				e, ok := x.(ast.Expr)
+				if !ok {
+					return true
+				}
+				if v, ok := core.ConstInt(info, e); ok {
+					if v == 0xd800 {
+						hasHi = true
+					}
+					if v == 0xdc00 {
+						hasLo = true
+					}
+					return false
+				}
+				if id, ok := e.(*ast.Ident); ok {
+					if v, ok := info.Uses[id].(*types.Var); ok && !v.IsField() && v.Pkg() != nil && v.Parent() != v.Pkg().Scope() {
+						vars[v] = true
+					}
+				}
+				return true
+			})
+			if !hasHi || !hasLo || len(vars) != 2 {
+				return true
+			}
+			if _, isBin := core.Unparen(as.Rhs[0]).(*ast.BinaryExpr); !isBin {
+				return true
+			}
+			n++
+			k++
+			rc.Touch(fn)
+			key := fmt.Sprintf("%s/surrogate-combination#%d", fn, k)
+			var vs []types.Object
+			for v := range vars {
+				vs = append(vs, v)
+			}
+			sort.Slice(vs, func(i, j int) bool { return vs[i].Pos() < vs[j].Pos() })
+			bp := &core.BytePred{P: p}
+			his := []int64{0xD800, 0xD801, 0xD83D, 0xD840, 0xD955, 0xDAAA, 0xDB40, 0xDBFF}
+			los := []int64{0xDC00, 0xDC01, 0xDD55, 0xDE00, 0xDEAA, 0xDFFF}
+			try := func(hi, lo types.Object) (bool, string, bool) {
+				check := func(h, l int64) (bool, string, bool) {
+					bp.Steps = 0
+					got, ok := bp.EvalInt(info, as.Rhs[0], core.BindAll(map[types.Object]int64{hi: h, lo: l}))
+					if !ok {
+						return false, "", false
+					}
+					want := 0x10000 + (h-0xD800)<<10 + (l - 0xDC00)
+					if got != want {
+						return false, fmt.Sprintf("\\u%04x\\u%04x gives U+%X, the pair denotes U+%X", h, l, got, want), true
+					}
+					return true, "", true
+				}
+				for h := int64(0xD800); h <= 0xDBFF; h++ {
+					for _, l := range los {
+						if ok, why, ev := check(h, l); !ev || !ok {
+							return ok, why, ev
+						}
+					}
+				}
+				for l := int64(0xDC00); l <= 0xDFFF; l++ {
+					for _, h := range his {
+						if ok, why, ev := check(h, l); !ev || !ok {
+							return ok, why, ev
+						}
+					}
+				}
+				return true, "", true
+			}
+			ok1, why1, ev1 := try(vs[0], vs[1])
+			ok2, _, ev2 := try(vs[1], vs[0])
+			switch {
+			case !ev1 && !ev2:
+				rc.Unknown(key, as.Pos(), "the expression `%s` is outside the folded subset", core.Src(p.Fset, as.Rhs[0]))
+			case ok1 || ok2:
+				rc.OK(key, as.Pos(), "`%s` equals utf16.DecodeRune on all 1024 high × 6 low and 8 high × 1024 low surrogates", core.Src(p.Fset, as.Rhs[0]))
+			default:
+				rc.Bad(key, as.Pos(), "`%s` is not the code point of the surrogate pair: %s", core.Src(p.Fset, as.Rhs[0]), why1)
+			}
+			return true
+		})
+	}
+	if n < 1 {
+		rc.Unknown("decoder/surrogate-combination", token.NoPos, "no hand-written surrogate combination found (unescapeString expected)")
+	}
+}
+
+// ---- C17.R6 the encoder's UTF-8 decoder accepts exactly the well-formed lead/second byte pairs ----
+
+// decodeRuneInString classifies the lead byte with the table `first` (class, accept-range index,
+// length) and then range-tests the second byte in a switch over the accept-range index. Both are
+// folded: for each of the 256 lead bytes the table entry gives length and range index; the clause for
+// that index is evaluated for each of the 256 second bytes. The result is compared with Unicode
+// Table 3-7 (well-formed UTF-8 byte sequences).
+func c17r6(rc *core.RC) {
+	p := rc.P
+	fd := p.Func("encoder", "decodeRuneInString")
+	if fd == nil {
+		rc.Unknown("encoder.decodeRuneInString", token.NoPos, "not found")
+		return
+	}
+	rc.Touch("encoder.decodeRuneInString")
+	info := p.Info(fd)
+	tbl := core.EvalTable(p.Pkg("encoder"), "first")
+	if tbl == nil || tbl.Opaque || tbl.Len != 256 {
+		rc.Unknown("encoder.first", token.NoPos, "lead-byte table not found or not constant")
+		return
+	}
+	var asC int64
+	ok1 := false
+	if c, ok := p.Pkg("encoder").Types.Scope().Lookup("as").(*types.Const); ok {
+		asC, ok1 = constInt64(c)
+	}
+	if !ok1 {
+		rc.Unknown("encoder.as", token.NoPos, "constant `as` not found")
+		return
+	}
+	// the switch over x >> 4 and the variable tested in its clauses
+	var sw *ast.SwitchStmt
+	ast.Inspect(fd.Body, func(m ast.Node) bool {
+		if s, ok := m.(*ast.SwitchStmt); ok && sw == nil && s.Tag != nil {
+			if be, ok := core.Unparen(s.Tag).(*ast.BinaryExpr); ok && be.Op == token.SHR {
+				sw = s
+			}
+		}
+		return true
+	})
+	if sw == nil {
+		rc.Unknown("encoder.decodeRuneInString/accept-switch", fd.Pos(), "switch over the accept-range index not found")
+		return
+	}
+	clauseOf := map[int64]*ast.CaseClause{}
+	for _, st := range sw.Body.List {
+		cc := st.(*ast.CaseClause)
+		for _, l := range cc.List {
+			if v, ok := core.ConstInt(info, l); ok {
+				clauseOf[v] = cc
+			}
+		}
+	}
+	bp := &core.BytePred{P: p}
+	rejects := func(cc *ast.CaseClause, b int64) (bool, bool) {
+		for _, st := range cc.Body {
+			ifs, ok := st.(*ast.IfStmt)
+			if !ok {
+				return false, false
+			}
+			var v types.Object
+			ast.Inspect(ifs.Cond, func(k ast.Node) bool {
+				if id, ok := k.(*ast.Ident); ok {
+					if o, ok := info.Uses[id].(*types.Var); ok && !o.IsField() && o.Pkg() != nil && o.Parent() != o.Pkg().Scope() {
+						v = o
+					}
+				}
+				return true
+			})
+			if v == nil {
+				return false, false
+			}
+			bp.Steps = 0
+			r, ok := bp.EvalBool(info, ifs.Cond, core.Bind(v, b))
+			if !ok {
+				return false, false
+			}
+			if r {
+				return true, true
+			}
+		}
+		return false, true
+	}
+	wantRange := func(lead int) (lo, hi, size int) {
+		switch {
+		case lead >= 0xC2 && lead <= 0xDF:
+			return 0x80, 0xBF, 2
+		case lead == 0xE0:
+			return 0xA0, 0xBF, 3
+		case lead >= 0xE1 && lead <= 0xEC, lead == 0xEE, lead == 0xEF:
+			return 0x80, 0xBF, 3
+		case lead == 0xED:
+			return 0x80, 0x9F, 3
+		case lead == 0xF0:
+			return 0x90, 0xBF, 4
+		case lead >= 0xF1 && lead <= 0xF3:
+			return 0x80, 0xBF, 4
+		case lead == 0xF4:
+			return 0x80, 0x8F, 4
+		}
+		return 0, -1, 1
+	}
+	bad := 0
+	for lead := 0; lead < 256; lead++ {
+		x, _ := tbl.Int(lead)
+		lo, hi, size := wantRange(lead)
+		key := fmt.Sprintf("encoder.decodeRuneInString/lead 0x%02X", lead)
+		if x >= asC {
+			// one-byte classes: ASCII or invalid
+			rc.Check(size == 1, key, tbl.Pos, "the lead-byte table marks 0x%02X as a one-byte class; UTF-8 gives it a %d-byte sequence", lead, size)
+			continue
+		}
+		if size == 1 {
+			rc.Bad(key, tbl.Pos, "the lead-byte table gives 0x%02X a multi-byte class; it cannot start a well-formed sequence", lead)
+			continue
+		}
+		if int(x&7) != size {
+			rc.Bad(key, tbl.Pos, "the lead-byte table gives 0x%02X length %d; UTF-8 length is %d", lead, x&7, size)
+			continue
+		}
+		cc := clauseOf[x>>4]
+		if cc == nil {
+			rc.Unknown(key, sw.Pos(), "no clause for accept-range index %d", x>>4)
+			continue
+		}
+		var extra, missing []int
+		und := false
+		for b := 0; b < 256; b++ {
+			rej, ok := rejects(cc, int64(b))
+			if !ok {
+				und = true
+				break
+			}
+			want := b >= lo && b <= hi
+			if !rej && !want {
+				extra = append(extra, b)
+			}
+			if rej && want {
+				missing = append(missing, b)
+			}
+		}
+		switch {
+		case und:
+			rc.Unknown(key, cc.Pos(), "the second-byte test of this accept range is outside the folded subset")
+		case len(extra) == 0 && len(missing) == 0:
+			rc.OK(key, cc.Pos(), "second bytes 0x%02X-0x%02X accepted, all others rejected", lo, hi)
+		default:
+			bad++
+			rc.Bad(key, cc.Pos(), "after lead byte 0x%02X the second bytes %s are accepted and %s rejected, against the well-formed range 0x%02X-0x%02X: ill-formed UTF-8 (for 0xED: encoded surrogates) is copied to the output instead of being replaced by U+FFFD", lead, orNone(core.FmtBytes(extra)), orNone(core.FmtBytes(missing)), lo, hi)
+		}
+	}
+}
+
